@@ -303,7 +303,7 @@ def run_cases(ctx, name, header, case_terms, per_shard=400, timeout=900, fn="che
             if not m:
                 broken.append("shard %d: unparsable output %s" % (k, out[-400:]))
                 continue
-            for a, b in re.findall(r"\((\d+)(?:%N)?,\s*(\d+)(?:%N)?\)", m.group(1)):
+            for a, b in re.findall(r"\(\s*(\d+)(?:%N)?\s*,\s*(\d+)(?:%N)?\s*\)", m.group(1)):
                 bad.append((k * per_shard + int(a), int(b)))
     ctx.oblige("cases-evaluate:" + name, "correspondence", not broken, "\n".join(broken)[:2000])
     return bad
